@@ -31,7 +31,8 @@ def truthiness_of_optional(repo, modules, fields=None):
                         n += 1
                         # allowed: inside a block already guarded by `<same> is not None` (then emptiness is the question)
                         text = ast.unparse(c)
-                        guarded = any(ast.unparse(tt) == text + " is not None" and pol
+                        guarded = any((ast.unparse(tt) == text + " is not None" and pol) or
+                                      (ast.unparse(tt) == text + " is None" and not pol)
                                       for tt, pol in pyflow.dominating_tests(node, stop=fn))
                         # allowed: conjunction with another discriminating test on the same object (size(...) and node.args)
                         conj = isinstance(t, ast.BoolOp) and isinstance(t.op, ast.And) and len(t.values) > 1 and not neg
@@ -162,9 +163,17 @@ def library_option_reads(repo, modules):
         m = repo.module(mn)
         for q, fn in m.functions().items():
             params = [a.arg for a in fn.args.args]
-            if not any(p in params for p in ("node", "cls", "function", "method", "var")):
+            per_decl = any(p in params for p in ("node", "cls", "function", "method", "var"))
+            # ... or a loop over declarations inside a function that takes the whole list
+            in_decl_loop = set()
+            for lp in ast.walk(fn):
+                if isinstance(lp, ast.For) and isinstance(lp.target, ast.Name) and lp.target.id in ("node", "cls", "function", "method", "var"):
+                    in_decl_loop.update(id(x) for x in ast.walk(lp))
+            if not per_decl and not in_decl_loop:
                 continue
             for x in ast.walk(fn):
+                if not per_decl and id(x) not in in_decl_loop:
+                    continue
                 if isinstance(x, ast.Attribute) and isinstance(x.value, ast.Attribute) and x.value.attr == "options":
                     d = pyflow.dotted(x.value.value) or ""
                     if d.endswith("newlibrary") or d in ("libnode", "library"):
@@ -613,4 +622,279 @@ def source_mutated_in_clone_loop(repo, modules):
                             out.append((mn, q, hit, "`%s` changes `%s`, the node every iteration of this loop clones: the setting of one "
                                         "instantiation/variant is inherited by all clones made after it"
                                         % (" ".join(ast.unparse(hit).split())[:60], src)))
+    return out, n
+
+
+def copy_shares_state(repo, modules):
+    """A method that hands out a *new* object made from `self` (it says so: it creates one and returns it) must not
+    hand out `self` itself, and must not give the new object `self`'s own dictionaries:
+      `new = self` ... `new.set_type(t)`; `return new`      - the original is changed and every later copy sees it;
+      `new.attrs = self.attrs` next to `new.metaattrs = copy.deepcopy(self.metaattrs)` - deleting a key from the copy
+      deletes it from the original."""
+    out, n = [], 0
+    for mn in modules:
+        m = repo.module(mn)
+        for cls in [c for c in ast.walk(m.tree) if isinstance(c, ast.ClassDef)]:
+            init = [f for f in cls.body if isinstance(f, ast.FunctionDef) and f.name == "__init__"]
+            dicts = set()
+            if init:
+                for a in ast.walk(init[0]):
+                    if isinstance(a, ast.Assign) and isinstance(a.targets[0], ast.Attribute) and isinstance(a.targets[0].value, ast.Name) \
+                            and a.targets[0].value.id == "self":
+                        v = a.value
+                        if isinstance(v, ast.Dict) or (isinstance(v, ast.Call) and ast.unparse(v.func).split(".")[-1]
+                                                       in ("dict", "defaultdict", "OrderedDict")):
+                            dicts.add(a.targets[0].attr)
+            for f in cls.body:
+                if not isinstance(f, ast.FunctionDef) or f.name == "__init__":
+                    continue
+                rets = [r.value.id for r in ast.walk(f) if isinstance(r, ast.Return) and isinstance(r.value, ast.Name)]
+                for v in set(rets):
+                    made = [a for a in ast.walk(f) if isinstance(a, ast.Assign) and len(a.targets) == 1
+                            and isinstance(a.targets[0], ast.Name) and a.targets[0].id == v]
+                    if len(made) != 1:
+                        continue
+                    src = made[0].value
+                    is_self = isinstance(src, ast.Name) and src.id == "self"
+                    is_new = isinstance(src, ast.Call) and (ast.unparse(src.func) in ("copy.copy", "copy.deepcopy", cls.name)
+                                                            or ast.unparse(src.func).endswith(".clone"))
+                    if not (is_self or is_new):
+                        continue
+                    n += 1
+                    writes = [s for s in ast.walk(f) if (isinstance(s, ast.Assign) and any(
+                        isinstance(t, (ast.Attribute, ast.Subscript)) and ast.unparse(t).startswith(v + ".") for t in s.targets))
+                        or (isinstance(s, ast.Expr) and isinstance(s.value, ast.Call) and isinstance(s.value.func, ast.Attribute)
+                            and isinstance(s.value.func.value, ast.Name) and s.value.func.value.id == v
+                            and s.value.func.attr.startswith(("set_", "update", "append", "add_")))]
+                    doc = (ast.get_docstring(f) or "").lower()
+                    if is_self and writes and ("copy" in doc or "new" in doc):
+                        out.append((mn, "%s.%s" % (cls.name, f.name), made[0],
+                                    "`%s = self` is then changed (`%s`) and returned as the \"new\" object: the original is modified, "
+                                    "and every object derived from it afterwards starts from the changed state"
+                                    % (v, ast.unparse(writes[0])[:40])))
+                    if is_new:
+                        deep = [s for s in ast.walk(f) if isinstance(s, ast.Assign) and isinstance(s.targets[0], ast.Attribute)
+                                and ast.unparse(s.targets[0].value) == v and isinstance(s.value, ast.Call)
+                                and ast.unparse(s.value.func) in ("copy.deepcopy", "copy.copy")]
+                        for s in ast.walk(f):
+                            if isinstance(s, ast.Assign) and isinstance(s.targets[0], ast.Attribute) and ast.unparse(s.targets[0].value) == v \
+                                    and isinstance(s.value, ast.Attribute) and isinstance(s.value.value, ast.Name) \
+                                    and s.value.value.id == "self" and s.value.attr == s.targets[0].attr \
+                                    and s.targets[0].attr in dicts and deep:
+                                out.append((mn, "%s.%s" % (cls.name, f.name), s,
+                                            "`%s` gives the new object the dictionary of the original (the sibling field `%s` is "
+                                            "copied): removing or changing an entry through one changes the other"
+                                            % (ast.unparse(s), ast.unparse(deep[0].targets[0]))))
+    return out, n
+
+
+_MUTATORS = ("append", "extend", "update", "add", "insert", "setdefault", "pop", "remove", "clear")
+
+
+def _attr_mutations(repo, modules, attr, owner=None, _depth=0):
+    """sites that change the container held in attribute `attr` of some object: x.attr.append(..), x.attr[k] = v
+    (also through an attribute that was bound to it: `self.b = cfg.attr` ... `self.b.update(..)`).  A site whose
+    receiver was constructed in the same function from a class other than `owner` is about another class's attribute
+    of the same name."""
+    out = []
+    for mn in modules:
+        m = repo.module(mn)
+        for q, fn in m.functions().items():
+            other = set()
+            for a in ast.walk(fn):
+                if isinstance(a, ast.Assign) and isinstance(a.targets[0], ast.Name) and isinstance(a.value, ast.Call) \
+                        and isinstance(a.value.func, ast.Name) and a.value.func.id[:1].isupper() and a.value.func.id != owner:
+                    other.add(a.targets[0].id)
+                if _depth == 0 and isinstance(a, ast.Assign) and isinstance(a.targets[0], ast.Attribute) \
+                        and isinstance(a.value, ast.Attribute) and a.value.attr == attr and a.targets[0].attr != attr:
+                    out.extend(_attr_mutations(repo, modules, a.targets[0].attr, owner, 1))
+            for s in ast.walk(fn):
+                recv = None
+                if isinstance(s, ast.Call) and isinstance(s.func, ast.Attribute) and isinstance(s.func.value, ast.Attribute):
+                    recv = s.func.value.value
+                elif isinstance(s, (ast.Assign, ast.AugAssign)):
+                    for t in (s.targets if isinstance(s, ast.Assign) else [s.target]):
+                        if isinstance(t, ast.Subscript) and isinstance(t.value, ast.Attribute):
+                            recv = t.value.value
+                if isinstance(recv, ast.Name) and recv.id in other:
+                    continue
+                if isinstance(s, ast.Call) and isinstance(s.func, ast.Attribute) and s.func.attr in _MUTATORS \
+                        and isinstance(s.func.value, ast.Attribute) and s.func.value.attr == attr:
+                    out.append((mn, q, s))
+                elif isinstance(s, (ast.Assign, ast.AugAssign)):
+                    for t in (s.targets if isinstance(s, ast.Assign) else [s.target]):
+                        if isinstance(t, ast.Subscript) and isinstance(t.value, ast.Attribute) and t.value.attr == attr:
+                            out.append((mn, q, s))
+    return out
+
+
+def shared_mutable_containers(repo, modules):
+    """Containers that outlive one object although the code treats them as per-object:
+      * a class-level `x = {}` / `[]` that is changed through instances and never re-bound in __init__;
+      * a mutable default argument (`def __init__(self, base=[])`) stored in an attribute that is later changed.
+    In a process that wraps several libraries (or one library twice) the second run starts with what the first left."""
+    out, n = [], 0
+    for mn in modules:
+        m = repo.module(mn)
+        for cls in [c for c in ast.walk(m.tree) if isinstance(c, ast.ClassDef)]:
+            init = [f for f in cls.body if isinstance(f, ast.FunctionDef) and f.name == "__init__"]
+            rebound = set()
+            for f in cls.body:
+                if isinstance(f, ast.FunctionDef):
+                    for a in ast.walk(f):
+                        if isinstance(a, ast.Assign):
+                            for t in a.targets:
+                                if isinstance(t, ast.Attribute) and isinstance(t.value, ast.Name) and t.value.id == "self":
+                                    rebound.add(t.attr)
+            for st in cls.body:
+                if isinstance(st, ast.Assign) and len(st.targets) == 1 and isinstance(st.targets[0], ast.Name) \
+                        and (isinstance(st.value, (ast.Dict, ast.List, ast.Set)) or (
+                            isinstance(st.value, ast.Call) and ast.unparse(st.value.func).split(".")[-1]
+                            in ("dict", "list", "set", "OrderedDict", "defaultdict"))):
+                    name = st.targets[0].id
+                    n += 1
+                    if name in rebound:
+                        continue
+                    muts = _attr_mutations(repo, modules, name, cls.name)
+                    if muts:
+                        mn2, q2, s2 = muts[0]
+                        out.append((mn, cls.name, st, "`%s.%s` is one container for all instances (it is never re-bound in a method) and "
+                                    "is changed through instances (%s.%s: `%s`): a second run in the same process starts with the "
+                                    "first run's entries" % (cls.name, name, mn2, q2, ast.unparse(s2)[:50])))
+            if init:
+                f = init[0]
+                args = f.args.args
+                defaults = [None] * (len(args) - len(f.args.defaults)) + list(f.args.defaults)
+                for a, d in zip(args, defaults):
+                    if not isinstance(d, (ast.List, ast.Dict, ast.Set)):
+                        continue
+                    n += 1
+                    stored = [s.targets[0].attr for s in ast.walk(f) if isinstance(s, ast.Assign) and isinstance(s.targets[0], ast.Attribute)
+                              and isinstance(s.value, ast.Name) and s.value.id == a.arg]
+                    for attr in stored:
+                        muts = _attr_mutations(repo, modules, attr, cls.name)
+                        if muts:
+                            mn2, q2, s2 = muts[0]
+                            out.append((mn, "%s.__init__" % cls.name, d, "the default `%s=%s` is one object for all calls; it is stored in "
+                                        "`self.%s`, which %s.%s changes (`%s`): every node created with the default shares the "
+                                        "change, also across runs" % (a.arg, ast.unparse(d), attr, mn2, q2, ast.unparse(s2)[:50])))
+    return out, n
+
+
+def scope_from_other_key(repo, modules):
+    """`fmt.C_name_scope = parent.fmtdict.F_name_scope + ...`: a scope prefix of one language built from the parent's
+    scope prefix of another.  The prefixes differ as soon as a namespace is flattened for one language only or the
+    name is lower-cased (F_name_scope is): names of two classes in different namespaces coincide."""
+    import re
+    out, n = [], 0
+    for mn in modules:
+        m = repo.module(mn)
+        for q, fn in m.functions().items():
+            for a in ast.walk(fn):
+                if isinstance(a, ast.Assign) and len(a.targets) == 1 and isinstance(a.targets[0], ast.Attribute) \
+                        and a.targets[0].attr.endswith("_scope"):
+                    key = a.targets[0].attr
+                elif isinstance(a, ast.keyword) and a.arg and a.arg.endswith("_scope"):
+                    key = a.arg          # Scope(..., C_name_scope=...) / dict(C_name_scope=...)
+                else:
+                    continue
+                srcs = [x.attr for x in ast.walk(a.value) if isinstance(x, ast.Attribute) and x.attr.endswith("_scope")
+                        and ("parent" in ast.unparse(x) or "fmtdict" in ast.unparse(x))]
+                if not srcs:
+                    continue
+                n += 1
+                other = [k for k in srcs if k != key and re.match(r"^[A-Z]+_", k) and re.match(r"^[A-Z]+_", key)
+                         and k.split("_", 1)[1] == key.split("_", 1)[1]]
+                if other:
+                    out.append((mn, q, a, "`%s` is computed from `%s` of the enclosing scope: the %s prefix of a class in a "
+                                "namespace no longer carries the namespace the way the %s names need it"
+                                % (key, other[0], key.split("_")[0], key.split("_")[0])))
+    return out, n
+
+
+def language_spelling(repo, modules):
+    """The library's language is normalised once (`"c++"` becomes `"cxx"` in LibraryNode.__init__); after that a
+    comparison of a language value with "c++" is never true."""
+    out, n = [], 0
+    for mn in modules:
+        m = repo.module(mn)
+        for q, fn in m.functions().items():
+            if q.endswith("LibraryNode.__init__"):
+                continue
+            for c in ast.walk(fn):
+                if isinstance(c, ast.Compare) and len(c.ops) == 1 and isinstance(c.ops[0], (ast.Eq, ast.NotEq, ast.In, ast.NotIn)):
+                    sides = [c.left] + c.comparators
+                    names = [ast.unparse(s) for s in sides if isinstance(s, (ast.Name, ast.Attribute))]
+                    if not any(x.split(".")[-1] in ("language", "lang") for x in names):
+                        continue
+                    n += 1
+                    lits = [x.value for s in sides for x in ast.walk(s) if isinstance(x, ast.Constant) and isinstance(x.value, str)]
+                    if "c++" in lits and not any("args." in x for x in names):
+                        out.append((mn, q, c, "`%s`: inside the generator the language is \"c\" or \"cxx\" (LibraryNode.__init__ "
+                                    "rewrites \"c++\"), so this test never holds for a C++ library" % ast.unparse(c)))
+    return out, n
+
+
+def write_only_key(repo, modules, receivers=("meta", "metaattrs", "c_meta", "f_meta", "attrs", "c_attrs", "f_attrs")):
+    """`meta["value"] = True` where no code ever reads "value" from a metaattrs mapping (it is read from `attrs`):
+    a key stored in the wrong one of two parallel dictionaries is a value nobody sees."""
+    def kind(recv):
+        r = recv.split(".")[-1]
+        if r in ("meta", "metaattrs", "c_meta", "f_meta"):
+            return "meta"
+        if r in ("attrs", "c_attrs", "f_attrs"):
+            return "attrs"
+        return None
+    # a parameter is what its callers pass: `def check_dimension(dim, attrs)` called with `metaattrs`
+    passed = {}
+    for mn in modules:
+        m = repo.module(mn)
+        for q, fn in m.functions().items():
+            for c in ast.walk(fn):
+                if isinstance(c, ast.Call):
+                    cname = c.func.attr if isinstance(c.func, ast.Attribute) else (c.func.id if isinstance(c.func, ast.Name) else None)
+                    for i, a in enumerate(c.args):
+                        k = kind(ast.unparse(a)) if isinstance(a, (ast.Name, ast.Attribute)) else None
+                        if cname and k:
+                            passed.setdefault((cname, i), set()).add(k)
+    reads, stores = {"meta": set(), "attrs": set()}, []
+    n = 0
+    for mn in modules:
+        m = repo.module(mn)
+        for q, fn in m.functions().items():
+            params = [a.arg for a in fn.args.args if a.arg != "self"]
+            override = {}
+            for i, pname in enumerate(params):
+                ks = passed.get((fn.name, i))
+                if ks and len(ks) == 1 and kind(pname) and kind(pname) not in ks:
+                    override[pname] = next(iter(ks))
+            def kind_(recv, override=override):
+                return override.get(recv, kind(recv))
+            for x in ast.walk(fn):
+                if isinstance(x, ast.Subscript) and isinstance(x.slice, ast.Constant) and isinstance(x.slice.value, str):
+                    k = kind_(ast.unparse(x.value))
+                    if k is None:
+                        continue
+                    if isinstance(x.ctx, ast.Load):
+                        reads[k].add(x.slice.value)
+                    elif isinstance(x.ctx, ast.Store):
+                        stores.append((mn, q, x, k, x.slice.value))
+                elif isinstance(x, ast.Call) and isinstance(x.func, ast.Attribute) and x.func.attr in ("get", "pop") and x.args \
+                        and isinstance(x.args[0], ast.Constant) and isinstance(x.args[0].value, str):
+                    k = kind_(ast.unparse(x.func.value))
+                    if k:
+                        reads[k].add(x.args[0].value)
+                elif isinstance(x, ast.Compare) and isinstance(x.ops[0], (ast.In, ast.NotIn)) and isinstance(x.left, ast.Constant) \
+                        and isinstance(x.left.value, str):
+                    k = kind_(ast.unparse(x.comparators[0]))
+                    if k:
+                        reads[k].add(x.left.value)
+    out = []
+    for mn, q, x, k, key in stores:
+        n += 1
+        other = "attrs" if k == "meta" else "meta"
+        if key not in reads[k] and key in reads[other] and not key.startswith("_"):
+            out.append((mn, q, x, "`%s` stores %r in the %s mapping, where nothing ever reads it; the readers of %r look in the "
+                        "%s mapping" % (ast.unparse(x), key, "metaattrs" if k == "meta" else "attrs", key,
+                                        "attrs" if k == "meta" else "metaattrs")))
     return out, n
